@@ -38,6 +38,9 @@ def run(fb, rep, tier):
     for op, cl, par in pairs:
         ops = [n for n in opt.nodes if this_call(op)(n)]
         cls = [n for n in opt.nodes if this_call(cl)(n)]
+        if len(ops) == 1 and len(cls) == 0:
+            rep.bad('R03.1', '_optimizeRational|%s->%s|closed' % (op, cl), '%s:%d' % (opt.file, ops[0].l), '%s is called but %s never is: the stored LP stays transformed after the exact solve' % (op, cl))
+            continue
         if len(ops) != 1 or len(cls) != 1:
             rep.unrec('R03.1', '_optimizeRational|%s/%s' % (op, cl), w, 'expected one opener and one closer, found %d/%d' % (len(ops), len(cls)))
             continue
